@@ -319,6 +319,9 @@ def run(pm, ctx):
                                               'stone.backends.python_helpers'),
                       False, 'python_client', TOTALITY_PRECONDITIONS, (10, 3, 0))
 
+    ctx.import_rules(pm, 'C02', {'C02-R5'}, 'C14-R6',
+                     'required / optional field listings of the IR are complete, parent first, with '
+                     'complementary predicates (shared with C02-R5)')
     from ..effects import run_decisions
     from ..ownership import OWN
     run_decisions(pm, ctx, 'C14-RD', OWN['C14'])
